@@ -876,7 +876,7 @@ func runC04(c *Ctx) {
 				exceeded = succOf(ifE, excOnTrue)
 				for _, i := range cmpE.Block().Instrs {
 					switch i.(type) {
-					case *ssa.UnOp, *ssa.BinOp, *ssa.If, *ssa.FieldAddr:
+					case *ssa.UnOp, *ssa.BinOp, *ssa.If, *ssa.FieldAddr, *ssa.Jump, *ssa.Phi, *ssa.Convert, *ssa.ChangeType:
 					default:
 						okD, why = false, "side effects between the two halves of the duration test"
 					}
